@@ -28,17 +28,15 @@ theorem intoContainer_ok {next : Node} (hnil : isNilN next = false) (hn : NP nex
 theorem enter_ok {cr key next} (hnil : isNilN next = false) (hn : NP next) :
     ConOK (enter cr key next) := by
   unfold enter
-  split
-  · trivial
-  · exact intoContainer_ok hnil hn
+  exact intoContainer_ok hnil hn
 
 theorem putChild_ok {o self con key child' next} (hc : isCon con = true) (hn : NP con)
-    (hch : NP child') (hk : key ≠ []) (hg : conGet o self con key = .ok next) :
+    (hch : NP child') (hg : conGet o self con key = .ok next) :
     isCon (putChild o con key child') = true ∧ NP (putChild o con key child') := by
   cases con with
   | doc keys obj =>
     simp only [putChild, isCon, true_and]
-    have hl := conGet_doc_lookup hk hg
+    have hl := conGet_doc_lookup hg
     have hn' := (NP_doc _ _).1 hn
     rw [NP_doc]
     refine ⟨nodup_setN hn'.1, ?_, ?_⟩
@@ -82,17 +80,11 @@ theorem wrapWalk_ok {α} {Q : α → Prop} {o self con key next} {w : Walk α}
   cases w with
   | done child' a =>
     simp only [wrapWalk]
-    split
-    · exact hw
-    · rename_i hk
-      have := putChild_ok (child' := child') hc hn hw.2.1 hk hg
-      exact ⟨this.1, this.2, hw.2.2⟩
+    have := putChild_ok (child' := child') hc hn hw.2.1 hg
+    exact ⟨this.1, this.2, hw.2.2⟩
   | notFound child' =>
     simp only [wrapWalk]
-    split
-    · exact hw
-    · rename_i hk
-      exact putChild_ok (child' := child') hc hn hw.2 hk hg
+    exact putChild_ok (child' := child') hc hn hw.2 hg
   | fail e => trivial
   | panic => exact hw
   | doneSelf s a => exact hw
@@ -192,11 +184,8 @@ theorem ensurePut_ok {o self0 con key self next x} (hc : isCon con = true) (hn :
   | ok p =>
     obtain ⟨child', s'⟩ := p
     simp only [ensurePut]
-    split
-    · exact ⟨hc, hn, hx.2.1⟩
-    · rename_i hk
-      have := putChild_ok (child' := child') hc hn hx.2.1 hk hg
-      exact ⟨this.1, this.2, hs⟩
+    have := putChild_ok (child' := child') hc hn hx.2.1 hg
+    exact ⟨this.1, this.2, hs⟩
   | err e => trivial
   | panic => exact hx
 
